@@ -442,10 +442,14 @@ Definition K6_lsf_header (c : case) : bool :=
   backend_eqb (c_be c) Lsf
   && (match effective (c_batch c) (c_step c) RExclusive with Some _ => true | None => false end
       || match effective (c_batch c) (c_step c) RQos with Some _ => true | None => false end).
-(** K6c: LSF cannot generate a script for a step that declares nodes only *)
+(** K6c: LSF cannot generate a launcher invocation for a step that declares
+    nodes only (jsrun needs a task count) *)
+Definition has_launcher (ps : list piece) : bool :=
+  existsb (fun p => match p with PText _ => false | _ => true end) ps.
 Definition K6_lsf_nodes_only (c : case) : bool :=
   backend_eqb (c_be c) Lsf
-  && negb (total_of (c_step c) RNodes =? 0) && (total_of (c_step c) RTasks =? 0).
+  && negb (total_of (c_step c) RNodes =? 0) && (total_of (c_step c) RTasks =? 0)
+  && (has_launcher (c_cmd c) || has_launcher (c_restart c)).
 
 (** * The monitor *)
 Inductive obs := OExc (e : exn) | OScript (sc : script).
@@ -482,9 +486,10 @@ Section Body.
   Fixpoint match_body (ps : list piece) (body : str) : bool :=
     match ps with
     | [] => match body with [] => true | _ => false end
-    | PText t :: r => prefixb t body && match_body r (skipn (List.length t) body)
+    | PText t :: r => if prefixb t body then match_body r (skipn (List.length t) body) else false
     | p :: r =>
-      existsb (fun k => launch_ok p (firstn k body) && match_body r (skipn k body))
+      (* [if], not [&&]: the monitor is run by a call-by-value evaluator *)
+      existsb (fun k => if launch_ok p (firstn k body) then match_body r (skipn k body) else false)
               (seq 1 (List.length body))
     end.
 End Body.
